@@ -171,6 +171,8 @@ func (d *Driver) handleCallbacks(
 	c := make(chan *callbackResult)
 
 	go func() {
+		defer verifYield("gcb.reader_exit") // deferred first: runs after close(c)
+
 		defer close(c)
 
 		for {
@@ -206,6 +208,8 @@ func (d *Driver) handleCallbacks(
 			}
 		}
 	}()
+
+	verifYield("gcb.pre_select")
 
 	select {
 	case r := <-c:
